@@ -1,5 +1,3 @@
-CONSTANTS
-  Strict = FALSE
 INIT TInit
 NEXT TNext
 CHECK_DEADLOCK FALSE
